@@ -50,7 +50,7 @@ deriving Repr
 
 structure St where
   me : Nat                         -- meself.uid
-  users : List Nat := [0, 1001, 1002, 1003, 1004]
+  users : List Nat := [0, 1001, 1002, 1003, 1004] ++ (List.range 40).map (· + 2001)   -- the password database of the harness
   now : Nat := 0
   tasks : List DTask := []
   nextSid : Nat := 0
@@ -170,7 +170,9 @@ def inject (s : St) (uid : String) (owner : Option Nat) (maxSimul dur : Nat) (oc
     (u : Nat) : St × Bool :=
   let oc := match owner with | some o => complUid s o | none => notAUid
   let uc := complUid s u
-  if uc = notAUid ∧ oc = notAUid then (s, false)
+  -- a peer that is given but unknown to the password database is refused; `notAUid` itself means "no peer" (reload)
+  if u ≠ notAUid ∧ uc = notAUid then (s, false)
+  else if uc = notAUid ∧ oc = notAUid then (s, false)
   else if uc = notAUid ∧ s.me ≠ 0 ∧ oc ≠ s.me then (s, false)
   else if oc = notAUid ∧ s.me ≠ 0 ∧ uc ≠ s.me then (s, false)
   else if uc ≠ notAUid ∧ oc ≠ notAUid ∧ oc ≠ uc then (s, false)
@@ -284,5 +286,22 @@ def httpSched (s : St) (peer : Nat) (urlUid : Option Nat) (tuids : List String) 
     let u := if u ≠ 0 then u else q
     let mine := (s.tasks.filter fun t => t.inTable && t.owner == u).map (·.uid)
     (200, if tuids.isEmpty then mine else tuids.filter (mine.contains ·))
+
+/-- `cmd_http` for `GET [/u/<uid>]/queue` without parameters: the same gate as for `/sched`; then, when the user has
+changes the spool does not show yet (`chkpntedp(u)`: marked, or the list of marks is full and marks were dropped),
+`chkpnt()` runs first; the body is the user's live queue file, 404 when there is none.  Returns the state after, the
+HTTP status and the UIDs of the tasks in the body. -/
+def httpQueue (s : St) (peer : Nat) (urlUid : Option Nat) : St × Nat × List String :=
+  let cu := (complUid s peer)
+  let cu := if cu = notAUid then peer else cu
+  let q := urlUid.getD notAUid
+  let u := cu &&& q
+  if u ≠ cu then (s, 403, [])
+  else
+    let u := if u ≠ 0 then u else q
+    let s' := if s.dirty.contains u || decide (16 ≤ s.dirty.length) then chkpnt s else s
+    match s'.files.find? (·.1 == u) with
+    | some f => (s', 200, f.2.map (·.uid))
+    | none => (s', 404, [])
 
 end Echse.Daemon
